@@ -7,7 +7,7 @@ CONSTANTS
   MaxCloses = 2
   MaxErrs = 1
   Spurious = FALSE
-  GenDepth = 7
+  GenDepth = 6
   CloseAfter = 0
 INVARIANT Emit
 CHECK_DEADLOCK FALSE
